@@ -16,16 +16,6 @@ namespace Heap
   unfold log; split
   · split <;> rfl
   · rfl
-@[simp] theorem log_base (h : Heap) (e) : (h.log e).base = h.base := by
-  unfold log; split
-  · split <;> rfl
-  · rfl
-@[simp] theorem log_snap (h : Heap) (e) : (h.log e).snap = h.snap := by
-  unfold log; split
-  · split <;> rfl
-  · rfl
-@[simp] theorem flag_base (h : Heap) (b) : (h.flag b).base = h.base := by unfold flag; split <;> rfl
-@[simp] theorem flag_snap (h : Heap) (b) : (h.flag b).snap = h.snap := by unfold flag; split <;> rfl
 @[simp] theorem flag_live (h : Heap) (b) : (h.flag b).live = h.live := by unfold flag; split <;> rfl
 @[simp] theorem flag_next (h : Heap) (b) : (h.flag b).next = h.next := by unfold flag; split <;> rfl
 
@@ -37,22 +27,10 @@ namespace Heap
   unfold touch; split
   · split <;> simp
   · simp
-@[simp] theorem touch_base (h : Heap) (id e) : (h.touch id e).base = h.base := by
-  unfold touch; split
-  · split <;> simp
-  · simp
-@[simp] theorem touch_snap (h : Heap) (id e) : (h.touch id e).snap = h.snap := by
-  unfold touch; split
-  · split <;> simp
-  · simp
 theorem touch_bad (h : Heap) (id e) (hl : h.live id = true) : (h.touch id e).bad = h.bad := by
   unfold touch; rw [if_pos hl]; split <;> simp
 
 @[simp] theorem free_next (h : Heap) (id) : (h.free id).next = h.next := by
-  unfold free; split <;> simp
-@[simp] theorem free_base (h : Heap) (id) : (h.free id).base = h.base := by
-  unfold free; split <;> simp
-@[simp] theorem free_snap (h : Heap) (id) : (h.free id).snap = h.snap := by
   unfold free; split <;> simp
 theorem free_bad (h : Heap) (id) (hl : h.live id = true) : (h.free id).bad = h.bad := by
   unfold free; rw [if_pos hl]; simp
@@ -69,8 +47,6 @@ theorem free_live_le (h : Heap) (id x) (hx : (h.free id).live x = true) : h.live
 @[simp] theorem malloc_id (h : Heap) (n) : (h.malloc n).2 = h.next := rfl
 @[simp] theorem malloc_next (h : Heap) (n) : (h.malloc n).1.next = h.next + 1 := by simp [malloc]
 @[simp] theorem malloc_bad (h : Heap) (n) : (h.malloc n).1.bad = h.bad := by simp [malloc]
-@[simp] theorem malloc_base (h : Heap) (n) : (h.malloc n).1.base = h.base := by simp [malloc]
-@[simp] theorem malloc_snap (h : Heap) (n) : (h.malloc n).1.snap = h.snap := by simp [malloc]
 @[simp] theorem malloc_live (h : Heap) (n) : (h.malloc n).1.live = fun x => x == h.next || h.live x := by simp [malloc]
 end Heap
 
@@ -112,10 +88,6 @@ variable (e : Env) (src : Option Nat) (len : Nat)
   unfold send; dsimp only; (repeat' split) <;> simp
 @[simp] theorem send_next : (send e o src len).1.heap.next = o.heap.next := by
   unfold send; dsimp only; (repeat' split) <;> simp
-@[simp] theorem send_base : (send e o src len).1.heap.base = o.heap.base := by
-  unfold send; dsimp only; (repeat' split) <;> simp
-@[simp] theorem send_snap : (send e o src len).1.heap.snap = o.heap.snap := by
-  unfold send; dsimp only; (repeat' split) <;> simp
 theorem send_bad (hl : ∀ id, src = some id → o.heap.live id = true) :
     (send e o src len).1.heap.bad = o.heap.bad := by
   unfold send; dsimp only; repeat' split
@@ -128,23 +100,25 @@ end Own
 namespace Own
 open Resp (maxPacket WRes RKind)
 
+variable {B : Nat} {S : Nat → Bool}
+
 /-- no violation so far; ids are handed out in increasing order; each owner field of the response
 holds a live buffer; the two fields never hold the same buffer -/
-structure Inv (o : O) : Prop where
+structure Inv (B : Nat) (S : Nat → Bool) (o : O) : Prop where
   ok : o.heap.bad = none
   fresh : ∀ x, o.heap.live x = true → x < o.heap.next
   b1 : ∀ id n, o.buffer = some (id, n) → o.heap.live id = true
   b2 : ∀ id n, o.bodyBuffer = some (id, n) → o.heap.live id = true
   ne : ∀ a m b n, o.buffer = some (a, m) → o.bodyBuffer = some (b, n) → a ≠ b
-  own1 : ∀ id n, o.buffer = some (id, n) → o.heap.base ≤ id
-  own2 : ∀ id n, o.bodyBuffer = some (id, n) → o.heap.base ≤ id
-  frame : ∀ x, x < o.heap.base → o.heap.live x = o.heap.snap x
-  basele : o.heap.base ≤ o.heap.next
+  own1 : ∀ id n, o.buffer = some (id, n) → B ≤ id
+  own2 : ∀ id n, o.bodyBuffer = some (id, n) → B ≤ id
+  frame : ∀ x, x < B → S x = true → o.heap.live x = true
+  basele : B ≤ o.heap.next
 
 /-- `id` is a live buffer held in a local variable: no owner field refers to it -/
-structure Held (o : O) (id : Nat) : Prop where
+structure Held (B : Nat) (o : O) (id : Nat) : Prop where
   live : o.heap.live id = true
-  own : o.heap.base ≤ id
+  own : B ≤ id
   nb : ∀ m, o.buffer ≠ some (id, m)
   nbb : ∀ n, o.bodyBuffer ≠ some (id, n)
 
@@ -154,9 +128,9 @@ macro "own_auto" : tactic => `(tactic|
   (constructor <;> simp_all [Heap.touch_bad, Heap.free_bad, Heap.free_live, send_bad] <;>
    grind [Heap.touch_bad, Heap.free_bad, Heap.free_live_at, send_bad]))
 
-theorem inv_init : Inv {} := by constructor <;> simp
+theorem inv_init : Inv 0 S {} := by constructor <;> simp
 
-theorem encodeHead_inv (e : Env) (o : O) (h : Inv o) : Inv (encodeHead e o) := by
+theorem encodeHead_inv (e : Env) (o : O) (h : Inv B S o) : Inv B S (encodeHead e o) := by
   obtain ⟨h1, h2, h3, h4, h5, h6, h7, h8, h9⟩ := h
   unfold encodeHead
   dsimp only
@@ -164,15 +138,15 @@ theorem encodeHead_inv (e : Env) (o : O) (h : Inv o) : Inv (encodeHead e o) := b
   · constructor <;> assumption
   · own_auto
 
-theorem chunkTail_inv (e : Env) (o : O) (id n0 l : Nat) (h : Inv o) (hh : Held o id) :
-    Inv (chunkTail e o id n0 l).1 := by
+theorem chunkTail_inv (e : Env) (o : O) (id n0 l : Nat) (h : Inv B S o) (hh : Held B o id) :
+    Inv B S (chunkTail e o id n0 l).1 := by
   obtain ⟨h1, h2, h3, h4, h5, h6, h7, h8, h9⟩ := h
   obtain ⟨g1, g0, g2, g3⟩ := hh
   unfold chunkTail
   dsimp only
   (repeat' split) <;> own_auto
 
-theorem writeChunk_inv (e : Env) (o : O) (l : Nat) (h : Inv o) : Inv (writeChunk e o l).1 := by
+theorem writeChunk_inv (e : Env) (o : O) (l : Nat) (h : Inv B S o) : Inv B S (writeChunk e o l).1 := by
   have h' := encodeHead_inv e o h
   unfold writeChunk
   dsimp only
@@ -188,7 +162,7 @@ theorem writeChunk_inv (e : Env) (o : O) (l : Nat) (h : Inv o) : Inv (writeChunk
     · own_auto
     · apply chunkTail_inv <;> own_auto
 
-theorem takeHead_inv (e : Env) (o : O) (l cl : Nat) (h : Inv o) : Inv (takeHead e o l cl).1 := by
+theorem takeHead_inv (e : Env) (o : O) (l cl : Nat) (h : Inv B S o) : Inv B S (takeHead e o l cl).1 := by
   unfold takeHead
   split
   · have h' := encodeHead_inv e o h
@@ -198,15 +172,15 @@ theorem takeHead_inv (e : Env) (o : O) (l cl : Nat) (h : Inv o) : Inv (takeHead 
     (repeat' split) <;> own_auto
   · exact h
 
-theorem appendTail_inv (e : Env) (o : O) (id bl l cl : Nat) (h : Inv o)
-    (hl : o.heap.live id = true) (hown : o.heap.base ≤ id) (hnb : ∀ m, o.buffer ≠ some (id, m)) :
-    Inv (appendTail e o id bl l cl).1 := by
+theorem appendTail_inv (e : Env) (o : O) (id bl l cl : Nat) (h : Inv B S o)
+    (hl : o.heap.live id = true) (hown : B ≤ id) (hnb : ∀ m, o.buffer ≠ some (id, m)) :
+    Inv B S (appendTail e o id bl l cl).1 := by
   obtain ⟨h1, h2, h3, h4, h5, h6, h7, h8, h9⟩ := h
   unfold appendTail
   dsimp only
   (repeat' split) <;> own_auto
 
-theorem sendDirect_inv (e : Env) (o : O) (l : Nat) (h : Inv o) : Inv (sendDirect e o l).1 := by
+theorem sendDirect_inv (e : Env) (o : O) (l : Nat) (h : Inv B S o) : Inv B S (sendDirect e o l).1 := by
   obtain ⟨h1, h2, h3, h4, h5, h6, h7, h8, h9⟩ := h
   unfold sendDirect
   dsimp only
@@ -219,15 +193,15 @@ macro "own_side" : tactic => `(tactic|
   | (simp_all [Heap.touch_bad, Heap.free_bad, Heap.free_live, send_bad]; grind)
   | grind)
 
-theorem sendCached_inv (e : Env) (o : O) (id bl : Nat) (h : Inv o) (hb : o.bodyBuffer = some (id, bl)) :
-    Inv (sendCached e o id bl).1 ∧
+theorem sendCached_inv (e : Env) (o : O) (id bl : Nat) (h : Inv B S o) (hb : o.bodyBuffer = some (id, bl)) :
+    Inv B S (sendCached e o id bl).1 ∧
       ((sendCached e o id bl).2 = true → ∃ n, (sendCached e o id bl).1.bodyBuffer = some (id, n)) := by
   obtain ⟨h1, h2, h3, h4, h5, h6, h7, h8, h9⟩ := h
   unfold sendCached
   dsimp only
   (repeat' split) <;> refine ⟨?_, ?_⟩ <;> first | own_auto | own_side
 
-theorem appendBody_inv (e : Env) (o : O) (l cl : Nat) (h : Inv o) : Inv (appendBody e o l cl).1 := by
+theorem appendBody_inv (e : Env) (o : O) (l cl : Nat) (h : Inv B S o) : Inv B S (appendBody e o l cl).1 := by
   unfold appendBody
   split
   · split
@@ -268,7 +242,7 @@ theorem appendBody_inv (e : Env) (o : O) (l cl : Nat) (h : Inv o) : Inv (appendB
       · own_side
       · own_side
 
-theorem write_inv (e : Env) (o : O) (l : Nat) (h : Inv o) : Inv (write e o l).1 := by
+theorem write_inv (e : Env) (o : O) (l : Nat) (h : Inv B S o) : Inv B S (write e o l).1 := by
   unfold write
   split
   · exact h
@@ -283,7 +257,7 @@ theorem write_inv (e : Env) (o : O) (l : Nat) (h : Inv o) : Inv (write e o l).1 
           · rename_i o2 hsc; rw [hsc] at ht; exact ht
           · rename_i o2 hsc; rw [hsc] at ht; exact appendBody_inv e o2 l _ ht
 
-theorem copyLoop_inv (e : Env) (f : Nat) (o : O) (rem w : Nat) (h : Inv o) : Inv (copyLoop e f o rem w).1 := by
+theorem copyLoop_inv (e : Env) (f : Nat) (o : O) (rem w : Nat) (h : Inv B S o) : Inv B S (copyLoop e f o rem w).1 := by
   induction f generalizing o rem w with
   | zero => exact h
   | succ f ih =>
@@ -291,20 +265,20 @@ theorem copyLoop_inv (e : Env) (f : Nat) (o : O) (rem w : Nat) (h : Inv o) : Inv
     dsimp only
     split
     · exact h
-    · have hs : Inv (send e o none (min rem 32768)).1 := by
+    · have hs : Inv B S (send e o none (min rem 32768)).1 := by
         obtain ⟨h1, h2, h3, h4, h5, h6, h7, h8, h9⟩ := h
         own_auto
       split
       · exact ih _ _ _ hs
       · exact hs
 
-theorem sendFile_inv (e : Env) (o : O) (h : Inv o) : Inv (sendFile e o).1 := by
+theorem sendFile_inv (e : Env) (o : O) (h : Inv B S o) : Inv B S (sendFile e o).1 := by
   obtain ⟨h1, h2, h3, h4, h5, h6, h7, h8, h9⟩ := h
   unfold sendFile
   dsimp only
   own_auto
 
-theorem readFrom_inv (e : Env) (o : O) (k : RKind) (n : Nat) (h : Inv o) : Inv (readFrom e o k n).1 := by
+theorem readFrom_inv (e : Env) (o : O) (k : RKind) (n : Nat) (h : Inv B S o) : Inv B S (readFrom e o k n).1 := by
   have h' := encodeHead_inv e o h
   unfold readFrom
   dsimp only
@@ -312,7 +286,7 @@ theorem readFrom_inv (e : Env) (o : O) (k : RKind) (n : Nat) (h : Inv o) : Inv (
   split
   · exact h'
   · rename_i id bl hb
-    have hs : Inv ({ (send e o1 (some id) bl).1.free id with buffer := none } : O) := by
+    have hs : Inv B S ({ (send e o1 (some id) bl).1.free id with buffer := none } : O) := by
       obtain ⟨h1, h2, h3, h4, h5, h6, h7, h8, h9⟩ := h'
       own_auto
     split
@@ -325,23 +299,23 @@ theorem readFrom_inv (e : Env) (o : O) (k : RKind) (n : Nat) (h : Inv o) : Inv (
         · have := copyLoop_inv e (n + 1) _ n 0 hs
           split <;> exact this
 
-theorem flushBuf_inv (e : Env) (o : O) (h : Inv o) : Inv (flushBuf e o) := by
+theorem flushBuf_inv (e : Env) (o : O) (h : Inv B S o) : Inv B S (flushBuf e o) := by
   obtain ⟨h1, h2, h3, h4, h5, h6, h7, h8, h9⟩ := h
   unfold flushBuf
   dsimp only
   (repeat' split) <;> own_auto
 
-theorem flushBodyBuf_inv (e : Env) (o : O) (h : Inv o) : Inv (flushBodyBuf e o) := by
+theorem flushBodyBuf_inv (e : Env) (o : O) (h : Inv B S o) : Inv B S (flushBodyBuf e o) := by
   obtain ⟨h1, h2, h3, h4, h5, h6, h7, h8, h9⟩ := h
   unfold flushBodyBuf
   dsimp only
   (repeat' split) <;> own_auto
 
-theorem flushOp_inv (e : Env) (o : O) (h : Inv o) : Inv (flushOp e o) :=
+theorem flushOp_inv (e : Env) (o : O) (h : Inv B S o) : Inv B S (flushOp e o) :=
   flushBodyBuf_inv e _ (flushBuf_inv e _ (encodeHead_inv e o h))
 
-theorem mergeBody_inv (e : Env) (o : O) (hid hl : Nat) (h : Inv o) (hb : o.buffer = some (hid, hl)) :
-    Inv (mergeBody e o hid hl).1 := by
+theorem mergeBody_inv (e : Env) (o : O) (hid hl : Nat) (h : Inv B S o) (hb : o.buffer = some (hid, hl)) :
+    Inv B S (mergeBody e o hid hl).1 := by
   unfold mergeBody
   cases hbb : o.bodyBuffer with
   | none => exact h
@@ -355,25 +329,25 @@ theorem mergeBody_inv (e : Env) (o : O) (hid hl : Nat) (h : Inv o) (hb : o.buffe
     dsimp only
     (repeat' split) <;> own_auto
 
-theorem sendFreeBuffer_inv (e : Env) (o : O) (h : Inv o) : Inv (sendFreeBuffer e o).1 := by
+theorem sendFreeBuffer_inv (e : Env) (o : O) (h : Inv B S o) : Inv B S (sendFreeBuffer e o).1 := by
   obtain ⟨h1, h2, h3, h4, h5, h6, h7, h8, h9⟩ := h
   unfold sendFreeBuffer
   dsimp only
   (repeat' split) <;> own_auto
 
-theorem sendFreeBody_inv (e : Env) (o : O) (h : Inv o) : Inv (sendFreeBody e o).1 := by
+theorem sendFreeBody_inv (e : Env) (o : O) (h : Inv B S o) : Inv B S (sendFreeBody e o).1 := by
   obtain ⟨h1, h2, h3, h4, h5, h6, h7, h8, h9⟩ := h
   unfold sendFreeBody
   dsimp only
   (repeat' split) <;> own_auto
 
-theorem mergeStep_inv (e : Env) (o : O) (h : Inv o) : Inv (mergeStep e o).1 := by
+theorem mergeStep_inv (e : Env) (o : O) (h : Inv B S o) : Inv B S (mergeStep e o).1 := by
   unfold mergeStep
   split
   · exact mergeBody_inv e o _ _ h ‹_›
   · exact h
 
-theorem flushIdentity_inv (e : Env) (o : O) (h : Inv o) : Inv (flushIdentity e o).1 := by
+theorem flushIdentity_inv (e : Env) (o : O) (h : Inv B S o) : Inv B S (flushIdentity e o).1 := by
   unfold flushIdentity
   dsimp only
   have hm := mergeStep_inv e o h
@@ -384,34 +358,34 @@ theorem flushIdentity_inv (e : Env) (o : O) (h : Inv o) : Inv (flushIdentity e o
     · exact hb
     · exact sendFreeBody_inv e _ hb
 
-theorem flushChunked_inv (e : Env) (o : O) (h : Inv o) : Inv (flushChunked e o).1 := by
+theorem flushChunked_inv (e : Env) (o : O) (h : Inv B S o) : Inv B S (flushChunked e o).1 := by
   obtain ⟨h1, h2, h3, h4, h5, h6, h7, h8, h9⟩ := h
   unfold flushChunked
   dsimp only
   (repeat' split) <;> own_auto
 
-theorem releaseBuf_inv (o : O) (h : Inv o) : Inv (releaseBuf o) := by
+theorem releaseBuf_inv (o : O) (h : Inv B S o) : Inv B S (releaseBuf o) := by
   obtain ⟨h1, h2, h3, h4, h5, h6, h7, h8, h9⟩ := h
   unfold releaseBuf
   dsimp only
   (repeat' split) <;> own_auto
 
-theorem releaseBody_inv (o : O) (h : Inv o) : Inv (releaseBody o) := by
+theorem releaseBody_inv (o : O) (h : Inv B S o) : Inv B S (releaseBody o) := by
   obtain ⟨h1, h2, h3, h4, h5, h6, h7, h8, h9⟩ := h
   unfold releaseBody
   dsimp only
   (repeat' split) <;> own_auto
 
-theorem release_inv (o : O) (h : Inv o) : Inv (release o) := releaseBody_inv _ (releaseBuf_inv o h)
+theorem release_inv (o : O) (h : Inv B S o) : Inv B S (release o) := releaseBody_inv _ (releaseBuf_inv o h)
 
-theorem finishFlush_inv (e : Env) (o : O) (h : Inv o) : Inv (finishFlush e o).1 := by
+theorem finishFlush_inv (e : Env) (o : O) (h : Inv B S o) : Inv B S (finishFlush e o).1 := by
   unfold finishFlush
   dsimp only
   split
   · exact flushChunked_inv e _ (encodeHead_inv e o h)
   · exact flushIdentity_inv e _ (encodeHead_inv e o h)
 
-theorem finish_inv (e : Env) (o : O) (h : Inv o) : Inv (finish e o).1 := by
+theorem finish_inv (e : Env) (o : O) (h : Inv B S o) : Inv B S (finish e o).1 := by
   unfold finish
   exact release_inv _ (finishFlush_inv e o h)
 
@@ -421,14 +395,14 @@ theorem release_empty (o : O) : (release o).buffer = none ∧ (release o).bodyBu
   dsimp only
   (repeat' split) <;> simp_all
 
-theorem step_inv (e : Env) (o : O) (op : Op) (h : Inv o) : Inv (step e o op).1 := by
+theorem step_inv (e : Env) (o : O) (op : Op) (h : Inv B S o) : Inv B S (step e o op).1 := by
   cases op with
   | write l => exact write_inv e o l h
   | flush => exact flushOp_inv e o h
   | readFrom k n => exact readFrom_inv e o k n h
   | finish => exact finish_inv e o h
 
-theorem run_inv (o : O) (prog : List (Env × Op)) (h : Inv o) : Inv (run o prog) := by
+theorem run_inv (o : O) (prog : List (Env × Op)) (h : Inv B S o) : Inv B S (run o prog) := by
   induction prog generalizing o with
   | nil => exact h
   | cons p rest ih => exact ih _ (step_inv p.1 o p.2 h)
